@@ -75,4 +75,5 @@ let () = each_line (fun line ->
            Printf.sprintf "%se=%s %s%s" (if is_midi then Printf.sprintf "r=%s " (z_to_string ret) else "")
              (String.concat ";" (List.map show_msg ms)) (show_state st') (show_map st' mslot))) ops in
     print_endline (String.concat "|" outs)
+  | "orc" :: _ -> print_endline "ORACLE"     (* libm evidence stream: judged by spec_check only *)
   | _ -> print_endline "BADCASE")
